@@ -159,10 +159,265 @@ class _Normalizer:
                 self._each_function(m, self._inline_properties)
             self._each_function(m, self._fold_function)
             self._each_function(m, self._data_driven)
+            self._each_function(m, self._display_algebra)
             self._each_function(m, self._desugar_function)
             self._each_function(m, self._order_comparisons)
             self._each_function(m, self._positional_calls)
             self._each_function(m, self._truth_contexts)
+
+
+    # ------------------------------------------------------------------ 9b. algebra of displays
+    def _display_algebra(self, fnode, cls, local):
+        """Positional plumbing through short-lived sequences reads as the values themselves:
+
+        * a local bound once to a display of simple values (names, attribute reads, constants) and used -- in the statements
+          right after it, with nothing in between that could change those values -- only through constant subscripts, constant
+          slices and ``*`` is replaced by the display;
+        * ``v[i:j]`` of a local bound once to ``S.unpack(..)`` of a struct constant of n fields -> ``(v[i], .., v[j-1])``;
+        * ``(a, b, c)[1]`` -> ``b``; ``(a, b, c)[1:]`` -> ``(b, c)``; ``(a,) + (b, c)`` -> ``(a, b, c)``;
+        * ``zip(D1, D2)`` -> the display of pairs, ``dict(<display of (const, v) pairs>)`` -> ``{const: v, ..}``,
+          ``f(**{'k': v})`` -> ``f(k=v)``, ``f(*(a, b))`` -> ``f(a, b)``."""
+        me = self
+        from .srcmodel import StructVal
+        params = {a.arg for a in fnode.args.args + fnode.args.kwonlyargs + fnode.args.posonlyargs}
+        if fnode.args.vararg:
+            params.add(fnode.args.vararg.arg)
+        if fnode.args.kwarg:
+            params.add(fnode.args.kwarg.arg)
+
+        def stores_of(name):
+            return [n for n in ast.walk(fnode) if isinstance(n, ast.Name) and n.id == name and isinstance(n.ctx, (ast.Store, ast.Del))]
+
+        # -- arity of unpack results
+        arity: Dict[str, int] = {}
+        for n in ast.walk(fnode):
+            if isinstance(n, ast.Assign) and len(n.targets) == 1 and isinstance(n.targets[0], ast.Name) and isinstance(n.value, ast.Call) \
+                    and isinstance(n.value.func, ast.Attribute) and n.value.func.attr in ('unpack', 'unpack_from'):
+                nm = n.targets[0].id
+                if nm in params or len(stores_of(nm)) != 1:
+                    continue
+                recv = n.value.func.value
+                sv = None
+                try:
+                    if isinstance(recv, ast.Attribute) and isinstance(recv.value, ast.Name) and recv.value.id in ('self', 'cls') and cls is not None:
+                        hit = cls.find_attr(recv.attr)
+                        if hit and not any(k is not hit[0] and recv.attr in k.attrs for k in me.repo.subclasses(cls)):
+                            sv = me.repo.try_fold(hit[1], hit[0].module, hit[0])
+                    elif isinstance(recv, ast.Name) and recv.id == 'struct' and n.value.args:
+                        f0 = me.repo.try_fold(n.value.args[0], me.m, cls)
+                        sv = StructVal(f0) if isinstance(f0, str) else None
+                    else:
+                        sv = me.repo.try_fold(recv, me.m, cls)
+                except Exception:
+                    sv = None
+                if isinstance(sv, StructVal):
+                    import struct as _st
+                    try:
+                        arity[nm] = len(_st.unpack(sv.fmt, b'\0' * _st.calcsize(sv.fmt)))
+                    except Exception:
+                        pass
+
+        def const_int(x):
+            if x is None:
+                return None
+            if isinstance(x, ast.Constant) and type(x.value) is int:
+                return x.value
+            if isinstance(x, ast.UnaryOp) and isinstance(x.op, ast.USub) and isinstance(x.operand, ast.Constant) and type(x.operand.value) is int:
+                return -x.operand.value
+            return 'no'
+
+        def plain(d):
+            return isinstance(d, (ast.Tuple, ast.List)) and not any(isinstance(x, ast.Starred) for x in d.elts)
+
+        changed = [False]
+
+        def spread(x):
+            """``v[i:j]`` of an unpack result of known arity, as the display of its elements (only where it is combined with
+            other displays: a plain ``a = v[i:j]`` keeps its shape)"""
+            if isinstance(x, ast.Subscript) and isinstance(x.ctx, ast.Load) and isinstance(x.slice, ast.Slice) and x.slice.step is None \
+                    and isinstance(x.value, ast.Name) and x.value.id in arity:
+                lo, hi = const_int(x.slice.lower), const_int(x.slice.upper)
+                if lo != 'no' and hi != 'no':
+                    idx = list(range(arity[x.value.id]))[slice(lo, hi)]
+                    changed[0] = True
+                    return ast.copy_location(ast.Tuple(elts=[ast.Subscript(value=ast.Name(id=x.value.id, ctx=ast.Load()),
+                                                                           slice=ast.Constant(value=i), ctx=ast.Load()) for i in idx],
+                                                       ctx=ast.Load()), x)
+            return x
+
+        def is_spreadable(x):
+            return isinstance(x, ast.Subscript) and isinstance(x.slice, ast.Slice) and isinstance(x.value, ast.Name) and x.value.id in arity
+
+        class A(ast.NodeTransformer):
+            def visit_FunctionDef(self_, n):
+                return n if n is not fnode else self_.generic_visit(n)
+            visit_AsyncFunctionDef = visit_FunctionDef
+
+            def visit_Lambda(self_, n):
+                return n
+
+            def visit_Subscript(self_, n):
+                n = self_.generic_visit(n)
+                if not isinstance(n.ctx, ast.Load):
+                    return n
+                if isinstance(n.slice, ast.Slice) and n.slice.step is None:
+                    lo, hi = const_int(n.slice.lower), const_int(n.slice.upper)
+                    if lo == 'no' or hi == 'no':
+                        return n
+                    if plain(n.value):
+                        changed[0] = True
+                        return ast.copy_location(type(n.value)(elts=n.value.elts[slice(lo, hi)], ctx=ast.Load()), n)
+                    return n
+                k = const_int(n.slice) if not isinstance(n.slice, ast.Slice) else 'no'
+                if k not in ('no', None) and plain(n.value) and -len(n.value.elts) <= k < len(n.value.elts):
+                    changed[0] = True
+                    return n.value.elts[k]
+                return n
+
+            def visit_BinOp(self_, n):
+                n = self_.generic_visit(n)
+                if isinstance(n.op, ast.Add) and (is_spreadable(n.left) or is_spreadable(n.right)) and all(
+                        is_spreadable(x) or isinstance(x, ast.Tuple) for x in (n.left, n.right)):
+                    n.left, n.right = spread(n.left), spread(n.right)
+                if isinstance(n.op, ast.Add) and plain(n.left) and plain(n.right) and type(n.left) is type(n.right):
+                    changed[0] = True
+                    return ast.copy_location(type(n.left)(elts=list(n.left.elts) + list(n.right.elts), ctx=ast.Load()), n)
+                return n
+
+            def visit_Call(self_, n):
+                n = self_.generic_visit(n)
+                f = n.func
+                if isinstance(f, ast.Name) and f.id not in local and not n.keywords:
+                    if f.id == 'zip' and n.args and all(plain(a) or is_spreadable(a) for a in n.args):
+                        n.args = [spread(a) for a in n.args]
+                    if f.id == 'zip' and n.args and all(plain(a) for a in n.args):
+                        k = min(len(a.elts) for a in n.args)
+                        changed[0] = True
+                        return ast.copy_location(ast.List(elts=[ast.Tuple(elts=[a.elts[i] for a in n.args], ctx=ast.Load())
+                                                               for i in range(k)], ctx=ast.Load()), n)
+                    if f.id == 'dict' and len(n.args) == 1 and plain(n.args[0]) and all(
+                            isinstance(x, ast.Tuple) and len(x.elts) == 2 and isinstance(x.elts[0], ast.Constant) for x in n.args[0].elts) \
+                            and len({x.elts[0].value for x in n.args[0].elts}) == len(n.args[0].elts):
+                        changed[0] = True
+                        return ast.copy_location(ast.Dict(keys=[x.elts[0] for x in n.args[0].elts],
+                                                          values=[x.elts[1] for x in n.args[0].elts]), n)
+                    if f.id in ('list', 'tuple') and len(n.args) == 1 and plain(n.args[0]) and isinstance(n.args[0], ast.List) \
+                            and f.id == 'tuple':
+                        pass
+                # f(**{'k': v}) -> f(k=v)
+                kws = []
+                hit = False
+                for kw in n.keywords:
+                    if kw.arg is None and isinstance(kw.value, ast.Dict) and kw.value.keys and all(
+                            isinstance(k, ast.Constant) and isinstance(k.value, str) and k.value.isidentifier() for k in kw.value.keys):
+                        kws.extend(ast.keyword(arg=k.value, value=v) for k, v in zip(kw.value.keys, kw.value.values))
+                        hit = True
+                    else:
+                        kws.append(kw)
+                if hit and len({k.arg for k in kws if k.arg}) == len([k for k in kws if k.arg]):
+                    n.keywords = kws
+                    changed[0] = True
+                if any(isinstance(a, ast.Starred) and plain(a.value) for a in n.args):
+                    args = []
+                    for a in n.args:
+                        if isinstance(a, ast.Starred) and plain(a.value):
+                            args.extend(a.value.elts)
+                        else:
+                            args.append(a)
+                    n.args = args
+                    changed[0] = True
+                return n
+
+        def simple_elt(x):
+            return isinstance(x, ast.Constant) or _is_simple(x) or _is_const_display(x)
+
+        def propagate_displays():
+            """substitute locals bound once to a display of simple values into the statement(s) right after the binding"""
+            done = False
+            for blk in _blocks(fnode):
+                i = 0
+                while i < len(blk):
+                    st = blk[i]
+                    i += 1
+                    if not (isinstance(st, ast.Assign) and len(st.targets) == 1 and isinstance(st.targets[0], ast.Name) and plain(st.value)
+                            and st.value.elts and len(st.value.elts) <= me.UNROLL_MAX and all(simple_elt(x) for x in st.value.elts)):
+                        continue
+                    nm = st.targets[0].id
+                    if nm in params or len(stores_of(nm)) != 1:
+                        continue
+                    uses = [n for n in ast.walk(fnode) if isinstance(n, ast.Name) and n.id == nm and isinstance(n.ctx, ast.Load)]
+                    if not uses:
+                        continue
+                    # every use sits in the statements that directly follow, as v[const] / v[const:const] / *v
+                    parents = {}
+                    for stmt in blk[i:]:
+                        for p_ in ast.walk(stmt):
+                            for ch in ast.iter_child_nodes(p_):
+                                parents[id(ch)] = p_
+                    if any(id(u) not in parents for u in uses):
+                        continue
+                    def ok_use(u):
+                        p_ = parents[id(u)]
+                        if isinstance(p_, ast.Starred):
+                            return True
+                        if isinstance(p_, ast.Subscript) and p_.value is u and isinstance(p_.ctx, ast.Load):
+                            if isinstance(p_.slice, ast.Slice):
+                                return p_.slice.step is None and const_int(p_.slice.lower) != 'no' and const_int(p_.slice.upper) != 'no'
+                            return const_int(p_.slice) not in ('no', None)
+                        return False
+                    if not all(ok_use(u) for u in uses):
+                        continue
+                    # the statements up to the last use: simple statements only; calls only as ancestors of a use (their
+                    # arguments are evaluated first) with call-free callee expressions; nothing stores in between
+                    last = max(k for k, stmt in enumerate(blk[i:]) if any(x is u for u in uses for x in ast.walk(stmt)))
+                    span = blk[i:i + last + 1]
+                    names_read = {y.id for x in st.value.elts for y in ast.walk(x) if isinstance(y, ast.Name)}
+                    safe = True
+                    for k, stmt in enumerate(span):
+                        if not isinstance(stmt, (ast.Assign, ast.Expr, ast.Return, ast.AugAssign, ast.AnnAssign)):
+                            safe = False
+                            break
+                        anc = set()
+                        for u in uses:
+                            x = u
+                            while id(x) in parents and x is not stmt:
+                                x = parents[id(x)]
+                                anc.add(id(x))
+                        for c in ast.walk(stmt):
+                            if isinstance(c, (ast.Yield, ast.YieldFrom, ast.Await, ast.NamedExpr, ast.Lambda, ast.ListComp, ast.GeneratorExp,
+                                              ast.DictComp, ast.SetComp)):
+                                safe = False
+                            if isinstance(c, ast.Call):
+                                if id(c) not in anc or any(isinstance(y, ast.Call) for y in ast.walk(c.func)):
+                                    safe = False
+                        if k < last:
+                            # an earlier statement of the span ran its calls and stores before later uses read the values
+                            if any(isinstance(c, ast.Call) for c in ast.walk(stmt)) or any(
+                                    isinstance(c, (ast.Attribute, ast.Subscript)) and isinstance(c.ctx, (ast.Store, ast.Del)) for c in ast.walk(stmt)):
+                                safe = False
+                            if any(isinstance(c, ast.Name) and isinstance(c.ctx, (ast.Store, ast.Del)) and c.id in names_read for c in ast.walk(stmt)):
+                                safe = False
+                    if not safe:
+                        continue
+                    for u in uses:
+                        p_ = parents[id(u)]
+                        d = copy.deepcopy(st.value)
+                        for fld, val in ast.iter_fields(p_):
+                            if val is u:
+                                setattr(p_, fld, ast.copy_location(d, u))
+                    blk.remove(st)
+                    i -= 1
+                    done = True
+            return done
+
+        for _round in range(4):
+            changed[0] = False
+            moved = propagate_displays()
+            A().visit(fnode)
+            if not (moved or changed[0]):
+                break
+            me.stats['display_algebra'] = me.stats.get('display_algebra', 0) + 1
+        ast.fix_missing_locations(fnode)
 
     # ------------------------------------------------------------------ 9. data-driven code over constant tables
     UNROLL_MAX = 24
@@ -752,10 +1007,26 @@ class _Normalizer:
             return None
         xslf, et = xa[0], xa[1]
         xb = list(_body(exit_.node))
+        suppress = None          # None: never; 'all': every exception; an expression: that exception class
         if xb and isinstance(xb[-1], ast.Return):
             rv = xb[-1].value
-            if not (rv is None or (isinstance(rv, ast.Constant) and rv.value in (False, None))):
-                return None
+            if rv is None or (isinstance(rv, ast.Constant) and rv.value in (False, None)):
+                pass
+            elif isinstance(rv, ast.Constant) and rv.value is True:
+                suppress = 'all'
+            else:
+                # return exc_type is not None and issubclass(exc_type, X) / return isinstance(exc_value, X)
+                parts_ = rv.values if isinstance(rv, ast.BoolOp) and isinstance(rv.op, ast.And) else [rv]
+                last_ = parts_[-1]
+                ok_ = isinstance(last_, ast.Call) and isinstance(last_.func, ast.Name) and len(last_.args) == 2 and (
+                    (last_.func.id == 'issubclass' and isinstance(last_.args[0], ast.Name) and last_.args[0].id == xa[1]) or
+                    (last_.func.id == 'isinstance' and isinstance(last_.args[0], ast.Name) and last_.args[0].id == xa[2]))
+                guard_ok = len(parts_) == 1 or (len(parts_) == 2 and isinstance(parts_[0], ast.Compare) and len(parts_[0].ops) == 1
+                                                 and isinstance(parts_[0].ops[0], ast.IsNot) and isinstance(parts_[0].left, ast.Name)
+                                                 and parts_[0].left.id in (xa[1], xa[2]))
+                if not (ok_ and guard_ok):
+                    return None
+                suppress = last_.args[1]
             xb = xb[:-1]
         if any(isinstance(n, ast.Return) for st in xb for n in ast.walk(st)):
             return None
@@ -789,7 +1060,9 @@ class _Normalizer:
             if not ok:
                 return None
             conds.append((exc_cls, st.body))
-        return k, fields, enter_val, (xslf, uncond, conds)
+        if suppress is not None and conds:
+            return None
+        return k, fields, enter_val, (xslf, uncond, conds, suppress)
 
     def _inline_context_managers(self, fnode, cls, local):
         """``with K(a) as v: BODY`` over such a manager reads as the try statement its __exit__ stands for:
@@ -813,10 +1086,22 @@ class _Normalizer:
             it = st.items[0]
             if not isinstance(it.context_expr, ast.Call):
                 return None
+            # contextlib.suppress(E1, E2): exactly ``try: BODY except (E1, E2): pass``
+            fn_txt = ast.unparse(it.context_expr.func)
+            if fn_txt in ('contextlib.suppress', 'suppress') and it.optional_vars is None and it.context_expr.args \
+                    and not it.context_expr.keywords and 'suppress' not in local \
+                    and not any(isinstance(a, ast.Starred) for a in it.context_expr.args):
+                typ = it.context_expr.args[0] if len(it.context_expr.args) == 1 else \
+                    ast.Tuple(elts=list(it.context_expr.args), ctx=ast.Load())
+                node = ast.Try(body=st.body, handlers=[ast.ExceptHandler(type=typ, name=None, body=[ast.Pass()])], orelse=[], finalbody=[])
+                ast.copy_location(node, st)
+                ast.fix_missing_locations(node)
+                me.stats['context_managers'] = me.stats.get('context_managers', 0) + 1
+                return [node]
             info = me._cm_class(it.context_expr)
             if info is None:
                 return me._splice_generator_cm(st, cls, local)
-            k, fields, enter_val, (xslf, uncond, conds) = info
+            k, fields, enter_val, (xslf, uncond, conds, suppress) = info
             pre: List[ast.stmt] = []
             fields = dict(fields)
             for f_, a_ in list(fields.items()):
@@ -842,7 +1127,12 @@ class _Normalizer:
                 handlers.append(ast.ExceptHandler(type=copy.deepcopy(exc_cls) if exc_cls is not None else ast.Name(id='BaseException', ctx=ast.Load()),
                                                   name=None, body=hb))
             fin = fields_subst(uncond, xslf, fields)
-            if not handlers and not fin:
+            if suppress is not None:
+                # the manager swallows: ``try: try: BODY except X: pass finally: <exit body>``
+                typ = ast.Name(id='BaseException', ctx=ast.Load()) if suppress == 'all' else copy.deepcopy(suppress)
+                inner = ast.Try(body=st.body, handlers=[ast.ExceptHandler(type=typ, name=None, body=[ast.Pass()])], orelse=[], finalbody=[])
+                new = pre + ([ast.Try(body=[inner], handlers=[], orelse=[], finalbody=fin)] if fin else [inner])
+            elif not handlers and not fin:
                 new = pre + st.body
             else:
                 new = pre + [ast.Try(body=st.body, handlers=handlers, orelse=[], finalbody=fin)]
@@ -1161,7 +1451,8 @@ class _Normalizer:
         owner, val = hit
         if '%s.%s' % (owner.key, name) in NAMES or _known_class_attr(owner.name, name) or not _literal_only(val):
             return None
-        fam = list(owner.mro()) + list(self.repo.subclasses(owner)) + list(self.repo.subclasses(kls))
+        # (what the ancestors of the owner bind under that name is shadowed by the owner's binding)
+        fam = list(self.repo.subclasses(owner)) + list(self.repo.subclasses(kls))
         if any(k is not owner and (name in k.attrs or name in k.methods) for k in fam):
             return None
         try:
@@ -2198,3 +2489,24 @@ def normalize_repo(repo) -> Dict[str, int]:
     n.run()
     repo.normalized_helpers = n.inlined
     return n.stats
+
+
+def _blocks(fnode):
+    """every statement list of the function (not of nested functions / classes)"""
+    out = []
+
+    def walk(body):
+        out.append(body)
+        for st in body:
+            if isinstance(st, (ast.FunctionDef, ast.AsyncFunctionDef, ast.ClassDef)):
+                continue
+            for fld in ('body', 'orelse', 'finalbody'):
+                sub = getattr(st, fld, None)
+                if isinstance(sub, list) and sub and isinstance(sub[0], ast.stmt):
+                    walk(sub)
+            for h in getattr(st, 'handlers', []) or []:
+                walk(h.body)
+            for c in getattr(st, 'cases', []) or []:
+                walk(c.body)
+    walk(fnode.body)
+    return out
